@@ -29,6 +29,9 @@ def failing_decls(log):
     return out or ["(see build log)"]
 
 
+_WATCHDOG = None
+
+
 def start_watchdog(seconds):
     """A hung check is harness trouble (exit 2), never a verdict."""
     import faulthandler
@@ -40,9 +43,13 @@ def start_watchdog(seconds):
         faulthandler.dump_traceback(file=sys.stderr)
         sys.stderr.flush()
         os._exit(2)
+    global _WATCHDOG
+    if _WATCHDOG is not None:
+        _WATCHDOG.cancel()          # re-armed (e.g. for the search phase)
     t = threading.Timer(seconds, fire)
     t.daemon = True
     t.start()
+    _WATCHDOG = t
 
 
 def run_other_backend(ctx, prop, tier):
@@ -211,6 +218,10 @@ def main():
             if ctx.tie_broken and not ctx.violations:
                 # the tie is broken: search harder for a failing input
                 if hasattr(mod, "search"):
+                    # the search has the thorough budget: give it its own
+                    # watchdog instead of what is left of the quick one
+                    start_watchdog(int(os.environ.get(
+                        "VERIF_SEARCH_WATCHDOG", "3600")))
                     mod.search(ctx, ctx.tie_broken)
                 if not ctx.violations:
                     ctx.report_no_input(
@@ -236,7 +247,8 @@ def main():
     checker = ("cd /verif/lean && lake build %s && lake env lean <#print "
                "axioms of each obligation> ; ./check %s" % (module, prop))
     level = "proof" if theorems else "exploration"
-    core.write_evidence(ctx, names, n_dis, checker, level)
+    if not args.replay:     # a replay describes one recorded case, not a run
+        core.write_evidence(ctx, names, n_dis, checker, level)
     for kid, what in ctx.known_hits.items():
         print("KNOWN-FINDING: property=%s %s %s" % (prop, kid, what))
     for path, what, noinput in ctx.violations:
@@ -248,4 +260,11 @@ def main():
 
 
 if __name__ == "__main__":
-    sys.exit(main())
+    try:
+        rc = main()
+    except SystemExit:
+        raise
+    except BaseException:       # anything unforeseen is harness trouble (2),
+        traceback.print_exc()   # never the violation code
+        rc = 2
+    sys.exit(rc)
